@@ -146,6 +146,10 @@ def _tc_histories(sp, tcm, check_pus_crc, c, app, want, tc):
     """The same statement along short call histories: views before packing, caller-owned mutable buffers, objects that were
     decoded, fields changed through the public header objects - octets and views must not depend on the order of calls."""
     devs = []
+    from ..core import copies_equal
+
+    copies_equal(devs, "hist.copy_of_never_packed", build_tc(tcm, c, app), lambda o: bytes(o.pack()), want)
+    copies_equal(devs, "hist.copy_of_decoded", tcm.PusTc.unpack(want), lambda o: bytes(o.pack()), want)
     pack_fresh(devs, "hist.pack_returns_fresh_buffer", tc.pack, want)
     # equality does not depend on whether either side was ever packed
     true(devs, "hist.eq_decoded_vs_never_packed", bool(tcm.PusTc.unpack(want) == build_tc(tcm, c, app)) and bool(build_tc(tcm, c, app) == tcm.PusTc.unpack(want)),
@@ -187,6 +191,12 @@ def _tc_histories(sp, tcm, check_pus_crc, c, app, want, tc):
     d3.app_data += b"\x07\x08"
     eq(devs, "hist.defaults.app_data_appended_in_place.bytes", bytes(d3.pack()), RP.pus_tc(0, 0, c["service"], c["subservice"], 0, 0b1111, b"\x07\x08"))
     eq(devs, "hist.defaults.app_data_appended_in_place.later_object", bytes(tcm.PusTc(service=c["service"], subservice=c["subservice"]).pack()), wdef)
+    w_apid = RP.pus_tc((c["apid"] + 1) % 2048, c["seq"], c["service"], c["subservice"], c["source_id"], c["ack"], app)
+    for how, o_ch in (("packed", build_tc(tcm, c, app)), ("decoded", tcm.PusTc.unpack(want))):
+        o_ch.pack()
+        o_ch.apid = (c["apid"] + 1) % 2048
+        d_new = tcm.PusTc.unpack(w_apid)
+        true(devs, f"hist.eq_right_after_setter.{how}", bool(o_ch == d_new) and bool(d_new == o_ch), "changed telecommand != telecommand decoded from the octets of its new values")
     # printing is pure: str() / repr() of a never-packed telecommand change nothing about what is packed after a later field change
     for printed in (False, True):
         o = build_tc(tcm, c, app)
@@ -402,6 +412,10 @@ CLAUSES = [
         n={"quick": 800, "thorough": 6000},
     ),
 ]
+
+from ..envcheck import env_clauses  # noqa: E402
+
+CLAUSES.extend(env_clauses("C02", ("pus",), n_quick=2, n_thorough=30))
 
 PROPERTY = Property(
     id="C02",
